@@ -15,7 +15,11 @@ THEOREMS = ["c01_read_after_write_region", "c01_region_frame", "c01_write_all", 
 HEADER = ("From Coq Require Import ZArith List QArith.\nFrom NixV Require Import Base.Prelude Pure.Slices Pure.SlicesCheck "
           "Pure.Array Pure.ArrayCheck.\nImport ListNotations.\nOpen Scope Z_scope.\n")
 DT = ["int8", "int16", "int32", "int64", "uint8", "uint16", "uint32", "uint64", "float32", "float64", "bool", "text"]
-POOL = ["", "a", "äöü", "x" * 50, "日本", " ", "line\nbreak", "0"]
+POOL = ["", "a", "äöü", "x" * 50, "日本", " ", "line\nbreak", "0",
+        # texts that a well-meant clean-up would change: decomposed / precomposed pairs (both in the pool, so one read as the
+        # other is seen), compatibility characters, jamo, case, outer blanks, a BOM, tabs, an astral character
+        "e\u0301", "\u00e9", "\u212b", "\u00c5", "\u1100\u1161", "\uac00", "A", "a ", " a", "\ufeffa", "\ta\t", "\U0001F600",
+        "\ufb01", "fi", "\u00df", "SS", "a\r\n"]
 
 
 def f64(x):
